@@ -427,6 +427,21 @@ func r072(c *Ctx, rule string) {
 			b, isC := constBool(retVal(r, 0))
 			return !isC || !b
 		}, nil)
+		if toFalse {
+			// (the verdict may be kept in a local and returned once at the end: judged way by way)
+			if paths, complete := enumPathsX(h, func(*ssa.Return) bool { return true }, 4000); complete {
+				toFalse = false
+				for _, pth := range paths {
+					site := s.instr
+					if pth.ret == nil || !pth.passes(func(in ssa.Instruction) bool { return in == site }) {
+						continue
+					}
+					if b, isC := constBool(pth.pathValue(retVal(pth.ret, 0))); !isC || !b {
+						toFalse = true
+					}
+				}
+			}
+		}
 		c.ob(rule, fmt.Sprintf("handler/after-error-response-returns-handled (%d)", s.status), s.instr.Pos(), !toFalse, true, "after answering, the handler must report the request as handled (nothing is forwarded)")
 	}
 	c.ob(rule, "handler/covers-stopped-and-timed-out", h.Pos(), seen[aStopped] && seen[timedOut], true, "")
